@@ -234,7 +234,17 @@ func (m *fidModel) step(o SOp, failedCall string) mExpect {
 			limit--
 		}
 		for i, name := range o.Names {
-			if i >= limit || n == nil || !n.Dir || n.Children[name] == nil {
+			if i >= limit || n == nil {
+				break
+			}
+			if name == ".." {
+				// the parent; the root is its own parent
+				path = mockfs.ParentPath(path)
+				n = m.lookup(path)
+				got++
+				continue
+			}
+			if !n.Dir || n.Children[name] == nil {
 				break
 			}
 			n = n.Children[name]
